@@ -38,6 +38,8 @@ MONITORS = [ReconcileMonitor]
 
 
 def generate(rng, i, tier):
+    if rng.random() < 0.06:
+        return livegen.gen_cancel_race(rng)
     return livegen.gen_live(rng, "C11")
 
 
